@@ -10,11 +10,17 @@ ARITY = {"app": 2, "appz": 2, "ins": 3, "set": 4, "setz": 4, "slc": 3, "slw": 3,
          "mks": 4, "wr": 4, "wrz": 3,
          "xcp": 2, "xclr": 1, "xapp": 2, "xins": 3, "xset": 2, "xsetz": 2, "xsets": 2, "xasl": 2, "xmks": 2,
          "xshf": 2, "xtrm": 2,
+         "xnew": 2, "xiov": 2, "xaiov": 2, "xasp": 2, "xpre": 2, "xinsz": 3, "xsetc": 3, "xsetr": 2, "xsetv": 3,
+         "xlen": 2, "xscp": 2, "xssc": 3,
+         "epush": 2, "efin": 1, "eprep": 2, "eshf": 2, "ecp": 2, "epm": 3,
          "tcp": 2, "tcc": 2, "tclr": 1, "tnew": 2, "tins": 3, "tset": 3, "trsv": 2, "trsz": 2, "tdet": 1, "tget": 2,
          "toff": 2, "tcmp": 1, "tswp": 3, "tunu": 1, "mset": 3, "mapp": 3, "mget": 2, "mval": 2, "mall": 1}
 HEXARG = {"app": 1, "ins": 2, "set": 3, "slw": 2, "bins": 2, "bset": 3, "prt": 1, "wr": 3,
-          "xapp": 1, "xins": 2, "xset": 1, "xsets": 1}   # index of the hex argument
-CXX_OPS = ("xcp", "xclr", "xapp", "xins", "xset", "xsetz", "xsets", "xasl", "xmks", "xshf", "xtrm")
+          "xapp": 1, "xins": 2, "xset": 1, "xsets": 1,
+          "xiov": 1, "xaiov": 1, "xasp": 1, "xpre": 1, "xsetc": 2, "xsetv": 2, "xssc": 2, "epush": 1}   # index of the hex argument
+CXX_OPS = ("xcp", "xclr", "xapp", "xins", "xset", "xsetz", "xsets", "xasl", "xmks", "xshf", "xtrm",
+           "xnew", "xiov", "xaiov", "xasp", "xpre", "xinsz", "xsetc", "xsetr", "xsetv", "xlen", "xscp", "xssc")
+ENC_OPS = ("epush", "efin", "eprep", "eshf", "ecp", "epm")
 # class templates of mptcore/array.h (harness/c04_tpl.cpp): family token -> element size
 FAMS = {"Td": 8, "Tu": 4, "Tk": 12, "Tq": 8, "Tr": 12, "Tp": 8, "Tm": 8}
 UNIQ = ("Tq", "Tr")
@@ -29,14 +35,17 @@ PATCHED_MAP_GET = True           # C04_map_get.diff: map::get returns the value 
 PATCHED_MAP_SET = True           # C04_map_set_shared.diff: map::set writes an existing key into shared data (needs MAP_GET, too)
 PATCHED_SWAP_BOUNDS = True       # C04_swap_bounds.diff: swap(span, p1, p2) accepts p == length and negative positions
 PATCHED_PTR_SWAP_SHARED = True   # C04_ptr_swap_shared.diff: pointer_array::swap exchanges elements of shared data in place
-_SWITCHES = ("RESERVE_NEG", "RESERVE_KEEP", "RESERVE_FAIL", "MAP_GET", "MAP_SET", "SWAP_BOUNDS", "PTR_SWAP_SHARED")
-# testing aid (scratch trees): VERIF_C04_PATCHED="MAP_GET MAP_SET" or "ALL" turns switches on without editing this file
-for _n in os.environ.get("VERIF_C04_PATCHED", "").replace(",", " ").split():
-    for _m in (_SWITCHES if _n == "ALL" else (_n,)):
-        if _m in _SWITCHES:
-            globals()["PATCHED_" + _m] = True
+# struct encode_array of mpt++/array.cpp (cases that start with E; specification coq/C04/ArrayEnc.v = the code AS PATCHED)
+PATCHED_ENC_PREPARE = True       # C04_enc_prepare.diff: encode_array::prepare zeroes the content (array::set(len) assigns zeros)
+PATCHED_ENC_SHIFT = True         # C04_enc_shift.diff: encode_array::shift(0) reads in front of the data, zeroes what it moved,
+#                                   writes shared data in place (precedence of `max = length() <= len`, memcpy, array::set)
+PATCHED_ENC_PUSHMSG = True       # C04_enc_push_message.diff: encode_array::push(message) never advances (no end) and skips the
+#                                   continuation parts
+_SWITCHES = ("ENC_PREPARE", "ENC_SHIFT", "ENC_PUSHMSG", "RESERVE_NEG", "RESERVE_KEEP", "RESERVE_FAIL", "MAP_GET", "MAP_SET", "SWAP_BOUNDS", "PTR_SWAP_SHARED")
+# all patches are committed in /repo: constants, nothing at run time decides them
 MUTATORS = ("app", "appz", "ins", "set", "setz", "slc", "slw", "rsv", "red", "prt", "str", "wr", "wrz",
-            "xapp", "xins", "xset", "xsetz", "xsets", "xasl", "xshf", "xtrm")
+            "xapp", "xins", "xset", "xsetz", "xsets", "xasl", "xshf", "xtrm",
+            "xiov", "xaiov", "xasp", "xpre", "xinsz", "xsetc", "xsetr", "xsetv", "xlen", "xssc")
 
 
 def asz(n):
@@ -84,9 +93,19 @@ class C04(DiffProperty):
             "mpt_buffer_insert/cut/set (private mutable buffers only), printf(\"%s\"), string, new buffer with flags, flags set in "
             "the header, slice creation and mpt_slice_write (data / zero / prepare form). C++ API cases (harness/c04_cxx.cpp, "
             "mpt::array / mpt::slice objects): copy assignment, clear, append, set(len,data / zero), array = slice, slice(array), "
-            "slice::shift / trim, printf, string, slice::write, header flags; array::insert and array::set(string value) are "
-            "generated only when the tree under test contains the patches of docs/C04_cxx_patches.diff (they are defective "
-            "on the unpatched tree, replays docs/C04_cxx_replay_*.json). quick: a directed sweep for each API {content length "
+            "slice::shift / trim, printf, string, slice::write, header flags, array::insert, array::set(string value), and the "
+            "further entry points of mpt++/array.cpp: array(size_t), operator=(iovec), operator+=(iovec / span<uint8_t>), "
+            "prepend, insert without data, set(convertable&) with a source that answers TypeVector / the character vector / "
+            "'s' / 's' with result 0 / nothing, set(reference<buffer>), set(value) for TypeVector, vectors of char / uint32 / "
+            "double (lengths that are no multiple of the element size included) and one scalar of these types, "
+            "array::content::set_length (private mutable blocks), the slice copy constructor, slice::set(convertable&). "
+            "Cases that start with E drive struct encode_array (two objects without encoder): push, push(0,0), prepare, "
+            "shift(n), shift(0), copy assignment, push(message with a continuation part); sweep = 9 prepared states "
+            "(empty, message in progress, finished, consumed in part / completely, shared copy, contents that fill the first "
+            "allocation step exactly) x 32 continuations, then 500 random histories; a push behind consumed data is never "
+            "generated (mpt_array_push inserts at done+scratch from the START of the array: defect outside this property, "
+            "see docs/notes_C04.md), prepare on an object with data, shift(0) with consumed data in front of data, and "
+            "push(message) with data need docs/C04_enc_{prepare,shift,push_message}.diff (PATCHED_ENC_* switches). quick: a directed sweep for each API {content length "
             "0,1,3,63,64,65,200} x {raw, char} x {flags} x {private, shared with an array, shared with a slice} x every operation "
             "with offsets and lengths at 0, 1, used-1, used, used+1, size-used, size-used+1, size-1, size, size+1 and the 64-byte "
             "printf steps, then 3000 (C) + 1500 (C++) random histories with arguments drawn around used, size, the free space and "
@@ -113,8 +132,11 @@ class C04(DiffProperty):
             "Counted families add the number of live objects, which must equal the elements of all live blocks")
     modelled = ("mptcore/array/{buffer_alloc,array_append,array_insert,array_set,array_slice,array_reserve,array_clone,"
                 "array_reduce,buffer_insert,buffer_cut,buffer_set,slice_write,printf,array_string}.c and the C++ entry points of "
-                "mpt++/array.cpp + mptcore/array.h (reference assignment, array::append/set/operator=(slice), slice ctor/shift/trim; "
-                "array::insert and array::set(value) as they are AFTER docs/C04_cxx_patches.diff) transcribed in "
+                "mpt++/array.cpp + mptcore/array.h (reference assignment, array::append/set/operator=(slice), slice ctor/shift/trim, "
+                "array::insert, array::set(value) for string / vector / scalar values, array::set(reference<buffer>), "
+                "array::content::set_length, slice copy constructor, slice::set(convertable); the wrappers array(size_t), "
+                "operator=(iovec), operator+=, prepend, insert(off, len, 0), array::set(convertable) are mapped by the driver to "
+                "the modelled operation they call) transcribed in "
                 "coq/C04/ArrayModel.v for raw buffers and POD element types (no init/fini callbacks; those are C05); "
                 "malloc failure, SIZE_MAX overflow guards, errno kinds and vsnprintf formats other than \"%s\" are not modelled. "
                 "The class templates of mptcore/array.h (content<T>, unique_array<T>, typed_array<T>, pointer_array<T>, "
@@ -126,7 +148,13 @@ class C04(DiffProperty):
                 "zero-initialise behave as POD: the instance count of such a type is checked against the model heap); the static "
                 "default_data object is the handle without buffer; mpt_array_compact's in-place loop is modelled by its result "
                 "(used pointers in order at the front; the bytes behind the new length are not content and not compared); "
-                "item_array / reference_array (element types with identifier / reference members) are not modelled")
+                "item_array / reference_array (element types with identifier / reference members) are not modelled. struct "
+                "encode_array (prepare / shift / push / push(message) / data / copy) has NO mechanism model of its own: it is "
+                "compared with the value-level specification coq/C04/ArrayEnc.v (array bytes + the counters done / scratch; "
+                "AS PATCHED by docs/C04_enc_{prepare,shift,push_message}.diff), mpt_array_push underneath belongs to the encoder "
+                "properties (C01/C02). Not driven: the tostring path of array::set(value) (TypeArray / TypeBufferPtr values), "
+                "negative slice::shift / trim, operator+=(content const&), the copy<> specialisations (mpt_copy64/32/df/fd "
+                "wrappers), encode_array with an encoder")
     trusted = ["harness/c04_array.c and harness/c04_cxx.cpp read every handle back from the header fields and the bytes behind "
                "the header, not through the library (the C harness includes buffer_alloc.c, the C++ harness mirrors the layouts "
                "and checks their sizes)",
@@ -138,17 +166,23 @@ class C04(DiffProperty):
     level_text = ("proof: Coq theorems C04_cow_step / C04_others_unchanged / C04_cow_histories / C04_refused_unchanged / "
                   "C04_model_no_fault / C04_ref_inv (+ C04_template_insert_value / C04_template_read_only / C04_view_is_value) "
                   "over the transcribed mechanism (heap of reference-counted buffers + array and "
-                  "slice handles): for EVERY state satisfying the heap invariant and every one of the 34 modelled operations (C API: "
+                  "slice handles): for EVERY state satisfying the heap invariant and every one of the 39 modelled operations (C API: "
                   "append, insert, typed set, slice, reserve, clone/clear, reduce, in-place buffer insert/cut/set, printf, string, new "
                   "buffer, flags, slice creation, slice write; C++ API: array copy/assignment, append, set, set(string value), "
-                  "array = slice, slice(array), slice::shift/trim; class templates typed_array / unique_array / pointer_array / map: "
+                  "array = slice, slice(array), slice::shift/trim, set(reference<buffer>), set(vector / scalar value), "
+                  "content::set_length, slice copy constructor, slice::set(convertable); class templates typed_array / unique_array / pointer_array / map: "
                   "construction with a length, insert, set, reserve, resize, detach, read-only methods, compact, swap, map::set), "
                   "the value read through the target handle is exactly the plain "
                   "vector operation of coq/C04/ArraySpec.v (gaps zero, lengths exact), every other handle reads what it read before, "
                   "the reference count of every buffer equals the number of handles on it, no model access leaves the block, refused "
                   "operations change no value; lifted to all mixed C/C++ histories by induction (no bound on handles, lengths, "
-                  "history length). The model is tied to the code on every run by differential execution of two harness binaries "
-                  "(C, C++ array/slice, C++ class templates) under ASan/UBSan")
+                  "history length). struct encode_array: C04_enc_* (9 theorems over the value-level specification "
+                  "coq/C04/ArrayEnc.v): in every history the counters describe a part of the array, an operation changes its "
+                  "target only, a refused one nothing, prepare changes nothing readable, push / push(message) append to the "
+                  "message in progress and leave the finished data, push(0,0) hands the message out, shift(n) consumes exactly "
+                  "n finished bytes, shift(0) drops exactly the consumed bytes. The model is tied to the code on every run by "
+                  "differential execution of three harness binaries (C, C++ array/slice/encode_array, C++ class templates) "
+                  "under ASan/UBSan")
     level_note = ("full strength for the modelled C and C++ entry points on raw and POD-typed buffers; all theorems closed under the "
                   "global context. Trusted: Coq kernel; hand transcription (validated by the correspondence run, not verified); "
                   "extraction + OCaml driver; harnesses. The specification is told (hint_of) the NoCopy/shared/immutable flags and "
@@ -165,7 +199,12 @@ class C04(DiffProperty):
                   "writes an existing key into shared data; swap(span) accepts p == length and negative positions (heap overflow "
                   "on a full block); pointer_array::swap exchanges elements of shared data in place. The model is the code as "
                   "patched; until a patch is committed its PATCHED_<TOPIC> switch in props/c04.py keeps the cases that need it out, "
-                  "so those behaviours are NOT exercised on the unpatched tree. Not covered: item_array / reference_array, "
+                  "so those behaviours are NOT exercised on the unpatched tree. encode_array (driven since coverage round 5, "
+                  "specification-level comparison only): three defects OPEN in /repo, one patch each: prepare(len) zeroes "
+                  "the content (docs/C04_enc_prepare.diff, PATCHED_ENC_PREPARE), shift(0) reads in front of the data area, "
+                  "zeroes what it moved and writes shared data in place (docs/C04_enc_shift.diff, PATCHED_ENC_SHIFT), "
+                  "push(message) never ends and ignores continuation parts (docs/C04_enc_push_message.diff, "
+                  "PATCHED_ENC_PUSHMSG); replays docs/C04_replay_enc_*.json. Not covered: item_array / reference_array, "
                   "negative slice::shift/trim, buffers with init/fini callbacks that do not copy bitwise (C05), malloc failure "
                   "paths. See docs/notes_C04.md.")
     technique = "Coq refinement proof (refcounted buffer heap -> value vectors) + differential correspondence check"
@@ -181,8 +220,8 @@ class C04(DiffProperty):
     def split(self, case):
         t = case.split()
         hdr = []
-        if t and t[0] in FAMS:            # class template cases start with the family of the four handles
-            hdr, t = t[:1], t[1:]
+        if t and (t[0] in FAMS or t[0] == "E"):   # class template cases start with the family of the four handles,
+            hdr, t = t[:1], t[1:]                  # encode_array cases with E
         ops, i = [], 0
         while i < len(t):
             n = ARITY.get(t[i], 1)
@@ -218,6 +257,21 @@ class C04(DiffProperty):
         hdr, ops = self.split(case)
         cl = set()
         have = False
+        if hdr and hdr[0] == "E":
+            cl.add("family:E")
+            for o in ops:
+                cl.add("op:" + o[0])
+                if o[0] in ("eprep", "eshf", "ecp", "efin") and have:
+                    cl.add("mutate-nonempty")
+                if o[0] in ("epush", "epm"):
+                    if have:
+                        cl.add("mutate-nonempty")
+                    have = True
+                if o[0] == "ecp":
+                    cl.add("shared")
+            if len(ops) > 1:
+                cl.add("history")
+            return cl if len(ops) >= 2 else set()
         if hdr:
             cl.add("family:" + hdr[0])
             for o in ops:
@@ -258,7 +312,7 @@ class C04(DiffProperty):
 
     @staticmethod
     def is_cxx(case):
-        return any(t in CXX_OPS for t in case.split())
+        return case.startswith("E ") or case == "E" or any(t in CXX_OPS for t in case.split())
 
     def evaluate(self, cases, workdir, tagsuffix=""):
         """cases of the class templates (family token first) go to harness/c04_tpl.cpp, cases that use the C++ array /
@@ -326,6 +380,39 @@ class C04(DiffProperty):
                         if sets_ok:
                             for n in (0, 1, 3, 63, 64, 65):
                                 ops.append(["xsets", "0", by.take(n, False)])
+                        # further entry points of mpt++/array.cpp
+                        if fl < 2 and L in (0, 1, 63, 64, 200):
+                            for n in sorted(set([0, 1, free + 1])):
+                                ops.append(["xiov", "0", by.take(n)])
+                                ops.append(["xpre", "0", by.take(n)])
+                                if n:
+                                    ops.append(["xaiov", "0", by.take(n)])
+                                    ops.append(["xasp", "0", by.take(n)])
+                            ops.append(["xaiov", "0", "-"])
+                            for n in sorted(set([0, 1, 65, u])):
+                                ops.append(["xnew", "0", str(n)])
+                            ops.append(["xnew", "2", str(s + 1), "xapp", "2", by.take(3)])
+                            for p in sorted(set([0, u // 2, u + 2])):
+                                for n in sorted(set([1, free + 1])):
+                                    ops.append(["xinsz", "0", str(p), str(n)])
+                            for k in "vcsen":
+                                for n in sorted(set([0, 1, u, u + 1, s + 1])) if k in "vs" else (u,):
+                                    ops.append(["xsetc", "0", k, by.take(n, False)])
+                                ops.append(["xmks", "5", "0", "xshf", "5", "1", "xssc", "5", k, by.take(u + 1, False)])
+                            ops.append(["xmks", "5", "0", "xssc", "5", "s", by.take(3, False)])
+                            ops += [["xsetr", "1", "0"], ["xsetr", "0", "1"], ["xsetr", "0", "0"], ["xsetr", "0", "2"],
+                                    ["xsetr", "2", "0", "xapp", "2", by.take(2)], ["xsetr", "2", "0", "xapp", "0", by.take(2)]]
+                            for k, e in (("V", 1), ("c", 1), ("u", 4), ("d", 8)):
+                                for n in sorted(set([0, e, 2 * e + 1, 72])):
+                                    ops.append(["xsetv", "0", k, by.take(n)])
+                            for k, e in (("C", 1), ("U", 4), ("D", 8)):
+                                ops.append(["xsetv", "2", k, by.take(e), "xcp", "3", "2", "xsetv", "2", k, by.take(e)])
+                            for n in sorted(set([0, max(0, u - 1), u, u + 1, s, s + 1])):
+                                ops.append(["xlen", "0", str(n), "xapp", "0", by.take(2)])
+                            for n1 in (0, 1):
+                                ops.append(["xmks", "5", "0", "xshf", "5", str(n1), "xscp", "4", "5", "wr", "4", "1", "1", by.take(1)])
+                                ops.append(["xmks", "5", "0", "xtrm", "5", str(n1), "xscp", "4", "5", "xscp", "5", "5", "xclr", "0"])
+                            ops.append(["xscp", "4", "5"])
                         for n1 in sorted(set([0, 1, u, u + 1])):
                             for n2 in sorted(set([0, 1, max(0, u - n1), max(0, u - n1) + 1])):
                                 tail = ["xmks", "5", "0", "xshf", "5", str(n1), "xtrm", "5", str(n2)]
@@ -342,7 +429,9 @@ class C04(DiffProperty):
         u = [0] * 6
         names = (["xapp"] * 12 + ["xset"] * 7 + ["xsetz"] * 2 + ["xcp"] * 12 + ["xclr"] * 2 + ["xasl"] * 6 + ["xmks"] * 8
                  + ["xshf"] * 5 + ["xtrm"] * 5 + ["prt"] * 4 + ["str"] * 2 + ["wr"] * 6 + ["wrz"] * 2 + ["flg"] * 3
-                 + (["xins"] * 10 if ins_ok else []) + (["xsets"] * 4 if sets_ok else []))
+                 + (["xins"] * 10 if ins_ok else []) + (["xsets"] * 4 if sets_ok else [])
+                 + ["xnew"] * 2 + ["xiov"] * 2 + ["xaiov"] * 3 + ["xasp"] * 2 + ["xpre"] * 3 + ["xinsz"] * 3 + ["xsetc"] * 5
+                 + ["xsetr"] * 5 + ["xsetv"] * 6 + ["xlen"] * 5 + ["xscp"] * 4 + ["xssc"] * 4)
         ops = []
         for _ in range(nops):
             op = rng.choice(names)
@@ -367,6 +456,41 @@ class C04(DiffProperty):
                 n = rng.choice([0, 1, 5, 63, 64, rng.randrange(0, 100)])
                 ops.append([op, str(x), by.take(n, False)])
                 if x < 4: u[x] = n + 1
+            elif op == "xnew":
+                ops.append([op, str(x), str(rng.choice([0, 0, 1, 64, 65, 200]))])
+                if x < 4: u[x] = 0
+            elif op in ("xiov", "xaiov", "xasp", "xpre"):
+                n = ln()
+                if n == 0 and op in ("xaiov", "xasp") and rng.random() < 0.9: n = 1
+                ops.append([op, str(x), by.take(n)])
+                if x < 4: u[x] = n if op == "xiov" else ux + n
+            elif op == "xinsz":
+                p = around(rng, [0, 1, ux // 2, ux, ux + 1, 40, s]); n = ln()
+                ops.append([op, str(x), str(p), str(n)])
+                if x < 4: u[x] = max(ux, p) + n
+            elif op in ("xsetc", "xssc"):
+                k = rng.choice("vvccsssen")
+                n = rng.choice([0, 1, max(0, ux - 1), ux, ux + 1, s, s + 1, ln()])
+                t = x if op == "xsetc" else sidx
+                ops.append([op, str(t), k, by.take(n, False)])
+                if t < 6 and k in "vcs": u[t] = n + (k == "s")
+            elif op == "xsetr":
+                y = rng.randrange(0, 4) if rng.random() < 0.97 else rng.randrange(0, 7)
+                ops.append([op, str(x), str(y)])
+                if x < 4 and y < 4: u[x] = u[y]
+            elif op == "xsetv":
+                k, e = rng.choice([("V", 1), ("c", 1), ("u", 4), ("d", 8), ("C", 1), ("U", 4), ("D", 8)])
+                n = e if k in "CUD" else rng.choice([0, 1, 2, 3, 8]) * e + (1 if rng.random() < 0.1 else 0)
+                ops.append([op, str(x), k, by.take(n)])
+                if x < 4: u[x] = n
+            elif op == "xlen":
+                n = rng.choice([0, max(0, ux - 1), ux, ux + 1, ux + 7, max(0, s - 1), s, s + 1])
+                ops.append([op, str(x), str(n)])
+                if x < 4 and n <= s: u[x] = n
+            elif op == "xscp":
+                t2 = rng.choice([4, 5, 4, 5, sidx]) if rng.random() < 0.97 else rng.randrange(0, 7)
+                ops.append([op, str(sidx), str(t2)])
+                if sidx in (4, 5) and t2 in (4, 5): u[sidx] = u[t2]
             elif op == "xcp":
                 y = rng.randrange(0, 4) if rng.random() < 0.97 else rng.randrange(0, 7)
                 ops.append([op, str(x), str(y)])
@@ -659,6 +783,110 @@ class C04(DiffProperty):
                 ops.append([op, str(x), str(rng.choice([0, 1]))])
         return " ".join(["Tm"] + [t for o in ops for t in o])
 
+    # ------------------------------------------------------------ struct encode_array (cases E ...)
+    @staticmethod
+    def enc_apply(v, o):
+        """value-level picture (bytes, done, scratch) of the objects: keeps the cases that need an uncommitted patch
+        (and a push behind consumed data: defect of mpt_array_push, outside this property) out.  Returns False when the
+        operation must not be generated in state v."""
+        e = int(o[1])
+        if not 0 <= e <= 1:
+            return True
+        n, d, sc = v[e]
+        cons = n - d - sc
+        if o[0] == "epush":
+            ln = 0 if o[2] == "-" else len(o[2]) // 2
+            if ln and cons:
+                return False
+            if ln: v[e] = (n + ln, d, sc + ln)
+        elif o[0] == "efin":
+            v[e] = (n, d + sc, 0)
+        elif o[0] == "eprep":
+            if n and not PATCHED_ENC_PREPARE:
+                return False
+        elif o[0] == "eshf":
+            k = int(o[2])
+            if k == 0:
+                if cons and d + sc and not PATCHED_ENC_SHIFT:
+                    return False
+                if cons: v[e] = (d + sc, d, sc)
+            elif k <= d:
+                v[e] = (n, d - k, sc)
+        elif o[0] == "ecp":
+            f = int(o[2])
+            if 0 <= f <= 1: v[e] = v[f]
+        elif o[0] == "epm":
+            l1 = 0 if o[2] == "-" else len(o[2]) // 2
+            l2 = 0 if o[3] == "-" else len(o[3]) // 2
+            if (l1 or l2) and (cons or not PATCHED_ENC_PUSHMSG):
+                return False
+            v[e] = (n + l1 + l2, d, sc + l1 + l2)
+        return True
+
+    def enc_cases(self, rng, nrand):
+        by = Bytes(rng)
+        pres = [[], ["epush", "0", by.take(3)], ["epush", "0", by.take(3), "efin", "0"],
+                ["epush", "0", by.take(5), "efin", "0", "epush", "0", by.take(2)],
+                ["epush", "0", by.take(5), "efin", "0", "eshf", "0", "2"],
+                ["epush", "0", by.take(6), "efin", "0", "eshf", "0", "2", "ecp", "1", "0"],
+                ["epush", "0", by.take(60), "efin", "0", "epush", "0", by.take(4), "ecp", "1", "0"],
+                ["epush", "0", by.take(64), "efin", "0", "eshf", "0", "64"],
+                ["epush", "0", by.take(70), "efin", "0", "eshf", "0", "3", "epush", "1", by.take(2)]]
+        tails = [["epush", "0", by.take(1)], ["epush", "0", by.take(64)], ["epush", "0", "-"], ["efin", "0"],
+                 ["eprep", "0", "0"], ["eprep", "0", "1"], ["eprep", "0", "64"], ["eprep", "0", "200"],
+                 ["eprep", "0", "10", "epush", "0", by.take(2), "efin", "0"],
+                 ["eshf", "0", "0"], ["eshf", "0", "1"], ["eshf", "0", "3"], ["eshf", "0", "5"], ["eshf", "0", "6"], ["eshf", "0", "71"],
+                 ["eshf", "0", "0", "epush", "0", by.take(2), "efin", "0", "eshf", "0", "0"],
+                 ["eshf", "0", "1", "eshf", "0", "0", "eshf", "0", "0"],
+                 ["ecp", "1", "0"], ["ecp", "0", "1"], ["ecp", "0", "0"], ["ecp", "1", "0", "epush", "1", by.take(2), "efin", "1"],
+                 ["ecp", "1", "0", "eshf", "1", "0"], ["ecp", "1", "0", "eshf", "0", "0", "efin", "1"],
+                 ["ecp", "1", "0", "eprep", "0", "100", "efin", "1"],
+                 ["epm", "0", "-", "-"], ["epm", "0", by.take(3), "-"], ["epm", "0", "-", by.take(2)],
+                 ["epm", "0", by.take(3), by.take(70)], ["epm", "0", by.take(2), by.take(2), "efin", "0", "epm", "0", by.take(1), by.take(1)],
+                 ["ecp", "1", "0", "epm", "1", by.take(2), by.take(3)], ["epush", "2", by.take(1)], ["ecp", "0", "2"]]
+        out = []
+
+        def admit(toks):
+            ops, i, v = [], 0, [(0, 0, 0), (0, 0, 0)]
+            while i < len(toks):
+                k = ARITY[toks[i]]
+                o = toks[i:i + k + 1]
+                if not self.enc_apply(v, o):
+                    break
+                ops += o
+                i += k + 1
+            return ops
+        for p in pres:
+            for t in tails:
+                ops = admit(p + t)
+                if len(ops) > len(p) or not t:
+                    out.append(" ".join(["E"] + ops))
+        names = ["epush"] * 10 + ["efin"] * 6 + ["eprep"] * 4 + ["eshf"] * 8 + ["ecp"] * 4 + ["epm"] * 4
+        for _ in range(nrand):
+            v = [(0, 0, 0), (0, 0, 0)]
+            ops = []
+            for _ in range(rng.choice([2, 3, 4, 6, 8, 12, 16, 24])):
+                op = rng.choice(names)
+                e = rng.choice([0, 0, 1]) if rng.random() < 0.98 else rng.randrange(0, 4)
+                n, d, sc = v[e] if 0 <= e <= 1 else (0, 0, 0)
+                if op == "epush":
+                    o = [op, str(e), by.take(rng.choice([1, 1, 2, 3, 8, 60, 64, 65, 130]))]
+                elif op == "efin":
+                    o = [op, str(e)]
+                elif op == "eprep":
+                    o = [op, str(e), str(rng.choice([0, 1, 10, 64, 65, 200]))]
+                elif op == "eshf":
+                    o = [op, str(e), str(rng.choice([0, 0, 0, 1, 1, 2, d // 2, d, d + 1]))]
+                elif op == "ecp":
+                    o = [op, str(e), str(rng.choice([0, 1]) if rng.random() < 0.97 else 2)]
+                else:
+                    o = [op, str(e), by.take(rng.choice([0, 1, 3, 64])), by.take(rng.choice([0, 1, 2, 70]))]
+                if self.enc_apply(v, o):
+                    ops += o
+            if ops:
+                out.append(" ".join(["E"] + ops))
+        return out
+
     # ------------------------------------------------------------ generators
     def sweep(self, rng):
         cases = []
@@ -857,6 +1085,7 @@ class C04(DiffProperty):
         cases += self.cxx_sweep(rng)
         for i in range(n // 2):
             cases.append(self.gen_cxx_history(rng, rng.choice([1, 2, 3, 4, 6, 8, 10, 12, 16, 20, 25])))
+        cases += self.enc_cases(rng, n // 6)
         cases += self.tpl_sweep(rng)
         for i in range(n // 2):
             cases.append(self.gen_tpl_history(rng, rng.choice([2, 3, 4, 6, 8, 10, 12, 16, 20, 25, 32, 40])))
